@@ -118,6 +118,14 @@ def gen_cases(rng, tier):
             kind = "dc-degree"
             spec["method"] = dict(spec["method"], cls="DC", degree=rng.choice([2, 3, 5]), scheme="radau")
         spec["objective"] = [["at_tf", ["sq", xs[0]]]]
+        if len(cases) % 9 == 4 and kind == "normal":
+            # state times derivative in both operand orders inside one expression, many points
+            xa, xb = xs[0], xs[-1]
+            e = ["+", ["-", ["*", xa, ["infder", xb]], ["*", ["infder", xa], xb]], E.rand_const(rng)]
+            kinds = "xder-both"
+            cases.append({"spec": spec, "expr": e, "form": form, "bound": ocpgen.rnd(rng, -1, 1), "kinds": kinds, "kind": kind,
+                          "K": 40 if tier == "quick" else 80, "seed": rng.getrandbits(32)})
+            continue
         cases.append({"spec": spec, "expr": e, "form": form, "bound": ocpgen.rnd(rng, -1, 1), "kinds": kinds, "kind": kind,
                       "K": 8 if tier == "quick" else 30, "seed": rng.getrandbits(32)})
     return cases
